@@ -55,6 +55,10 @@ pub const INPUTS: &[(&str, &str, bool)] = &[
     ("kw-region-closed", "`begin_keywords \"1364-2001\"\nmodule k3; reg logic; endmodule\n`end_keywords\nmodule k4; logic z; endmodule\n", false),
     ("kw95-later-words", "`begin_keywords \"1364-1995\"\nmodule k5; reg unsigned; wire signed; reg automatic; wire [3:0] generate; assign signed = unsigned & automatic; endmodule\nmodule k6; reg unsigned; reg logic; wire bit; endmodule\n`end_keywords\nmodule k7; logic u; endmodule\n", false),
     ("kw2001-nested-2005", "`begin_keywords \"1364-2001\"\nmodule k8; reg uwire; reg logic; endmodule\n`begin_keywords \"1800-2005\"\nmodule k9; logic l; reg checker; endmodule\n`end_keywords\nmodule k10; wire bit; reg unique0; endmodule\n`end_keywords\n", false),
+    ("incA-width", "`include \"defs.svh\"\nmodule wa; wire [`WIDTH-1:0] x; `ifdef FROM_A wire a_only; `endif endmodule\n", false),
+    ("incB-width", "`include \"defs.svh\"\nmodule wb; wire [`WIDTH-1:0] x; `ifdef FROM_A wire a_only; `endif endmodule\n", false),
+    ("incA-nested", "`include <outer.svh>\nmodule na; wire [`WIDTH:0] y; endmodule\n", false),
+    ("incB-nested", "`include <outer.svh>\nmodule nb; wire [`WIDTH:0] y; endmodule\n", false),
     ("pollute-open-keywords-2001", "`begin_keywords \"1364-2001\"\nmodule p1; reg logic; endmodule\n", true),
     ("pollute-open-keywords-1995", "`begin_keywords \"1364-1995\"\nmodule p2; wire signed_; endmodule\n", true),
     ("pollute-open-twice", "`begin_keywords \"1364-2005\"\n`begin_keywords \"1800-2005\"\nmodule p3; endmodule\n`end_keywords\n", true),
@@ -99,6 +103,12 @@ pub fn pool(scratch: &Path) -> &'static Pool {
             files.push(p);
         }
         let _ = std::fs::write(dir.join("more.map"), "library lib2 c.v;\n");
+        // two include directories that hold the same header names with different contents
+        for (d, w, extra) in [("incA", "8", "`define FROM_A\n"), ("incB", "16", "")] {
+            let _ = std::fs::create_dir_all(dir.join(d));
+            let _ = std::fs::write(dir.join(d).join("defs.svh"), format!("`define WIDTH {}\n{}", w, extra));
+            let _ = std::fs::write(dir.join(d).join("outer.svh"), "`include \"defs.svh\"\n");
+        }
         Pool { dir, files }
     })
 }
@@ -138,7 +148,15 @@ pub fn exec(pool: &Pool, entry: Entry, input: usize, buf: &mut String) -> String
     buf.push_str(text);
     let path = &pool.files[input];
     let defs = Defs::new();
-    let incs = vec![pool.dir.clone()];
+    // inputs named incA-… / incB-… are preprocessed with their own include directory
+    let name = INPUTS[input].0;
+    let incs = if name.starts_with("incA-") {
+        vec![pool.dir.join("incA")]
+    } else if name.starts_with("incB-") {
+        vec![pool.dir.join("incB")]
+    } else {
+        vec![pool.dir.clone()]
+    };
     match entry {
         Entry::PpStr => pp_repr(sv::preprocess_str(buf.as_str(), path, &defs, &incs, false, false, 0, 0)),
         Entry::PpStrStrip => pp_repr(sv::preprocess_str(buf.as_str(), path, &defs, &incs, false, true, 0, 0)),
